@@ -388,6 +388,18 @@ Definition fmt_ok (f : fmt) : bool :=
   (negb (f_tguard f) || is_tterminal f) &&
   term_reads_ok f.
 
+(* a RawInstr field whose place in the file is taken by a literal (the EoSD ECL parameter mask is always
+   written as 0x00FF): like a field the format has no room for, with that literal as its only value *)
+Definition forced_pair (w : wfield) (r : rfield) : bool :=
+  match w_fld w, r_fld r with
+  | FConst c, (FTime | FOpcode | FMask | FDiff | FPop | FExtra | FArgc) => in_rangeb (r_disk r) c && in_rangeb (r_mem r) c
+  | _, _ => false
+  end.
+Definition forced_value_ok (hdr : Z) (i : instr) (w : wfield) (r : rfield) : bool :=
+  if forced_pair w r then get hdr i (r_fld r) =? get hdr i (w_fld w) else true.
+Definition forced_default (f : fmt) (i : instr) : bool :=
+  forallb2 (forced_value_ok (f_hdr f) i) (f_write f) (f_read f).
+
 (* every value of both a and b is a value of both c and d *)
 Definition meet_sub (a b c d : ity) : bool :=
   (Z.max (ity_lo c) (ity_lo d) <=? Z.max (ity_lo a) (ity_lo b)) && (Z.min (ity_hi a) (ity_hi b) <=? Z.min (ity_hi c) (ity_hi d)).
@@ -397,7 +409,7 @@ Definition meet_sub (a b c d : ity) : bool :=
    that passes is a value of the type it is read as and of the field it is stored in; or (B) nothing
    narrows: the field type is unchanged and the on-disk type is at least as wide *)
 Definition pair_checked (f : fmt) (w : wfield) (r : rfield) : bool :=
-  is_const (r_fld r) ||
+  is_const (r_fld r) || forced_pair w r ||
   (fld_eqb (w_fld w) (r_fld r) &&
    ((match w_cast w with Checked => true | AsCast => sub_range (w_mem w) (w_disk w) end &&
      meet_sub (w_mem w) (w_disk w) (r_disk r) (r_mem r))
@@ -429,26 +441,3 @@ Fixpoint unchecked_fields (f : fmt) (ws : list wfield) (rs : list rfield) : list
 Definition terminal_forgeable (f : fmt) : bool := is_tterminal f && negb (f_tguard f) && negb (term_unreachable f).
 
 Definition is_ok {A} (o : outcome A) : bool := match o with Ok _ => true | _ => false end.
-
-(* [i] shows that format [f] changes a value silently: it is well-formed, uses no unstored field,
-   is written without a diagnostic, and does not fit *)
-Definition refutes (f : fmt) (i : instr) : bool :=
-  wf_instr f i && unstored_default f i && (alen i <=? ISIZE_MAX) && is_ok (write_instr f i) && negb (fitsb f i).
-
-(* boundary instructions among which a refuting one is searched *)
-Definition with_args (i : instr) (n : Z) : instr :=
-  mkInstr (i_time i) (i_opcode i) (i_mask i) (repeat 0 (Z.to_nat n)) (i_diff i) (i_pop i) (i_extra i) (i_argc i).
-Definition candidates (f : fmt) : list instr :=
-  let d := f_default f in
-  let n0 := match f_args f with ArgsFixed n => n | _ => 0 end in
-  let b := with_args (mkInstr 0 1 (i_mask d) [] (i_diff d) (i_pop d) (i_extra d) (i_argc d)) n0 in
-  let set_time t := mkInstr t (i_opcode b) (i_mask b) (i_args b) (i_diff b) (i_pop b) (i_extra b) (i_argc b) in
-  let set_op o := mkInstr (i_time b) o (i_mask b) (i_args b) (i_diff b) (i_pop b) (i_extra b) (i_argc b) in
-  let set_mask m := mkInstr (i_time b) (i_opcode b) m (i_args b) (i_diff b) (i_pop b) (i_extra b) (i_argc b) in
-  map set_time [32768; -32769; 70000] ++ map set_op [128; 200; 256; 65535] ++ map set_mask [0; 1] ++
-  map (with_args b) [248; 252; 256; 32752; 32756; 32760; 65520; 65524; 65528; 65532; 65536] ++
-  [mkInstr (-1) 1 (i_mask b) (i_args b) (i_diff b) (i_pop b) 4 (i_argc b);
-   with_args (mkInstr (-1) 0 (i_mask b) [] 0 (i_pop b) (i_extra b) (i_argc b)) 248].
-
-(* the format either cannot change a value silently, or one of the candidates shows that it does *)
-Definition status (f : fmt) : bool := fmt_ok f && (all_checked f || existsb (refutes f) (candidates f)).
